@@ -74,9 +74,12 @@ def check(ctx):
     for q in ("SubprocSpec.resolve_executable_commands", "SubprocSpec._run_binary"):
         fn = sp.func(q)
         c3 = CFG(fn)
+        # role: the command word = a local bound to element 0 of the command list
+        argv = names_bound_to_text(fn, "self.cmd") | {"self.cmd"}
+        CMD0 = names_defined_by(fn, lambda v: any(isinstance(x, ast.Subscript) and const_value(x.slice) == 0 and unparse(x.value) in argv for x in ast.walk(v)))
         for c in calls_in(fn):
             nm = call_name(c) or ""
-            if nm in ("os.path.isfile", "os.path.abspath", "is_file", "os.path.exists") and c.args and "cmd0" in df.names_read(c.args[0]):
+            if nm in ("os.path.isfile", "os.path.abspath", "is_file", "os.path.exists") and c.args and CMD0 & df.names_read(c.args[0]):
                 node = None
                 st_ = stmt_of(c)
                 for nd in c3.nodes_of(st_):
@@ -108,21 +111,27 @@ def check(ctx):
     ucfg = CFG(uc)
     ow = None
     for n in ucfg.nodes:
-        if n.kind == "stmt" and isinstance(n.ast, ast.Assign) and isinstance(n.ast.targets[0], ast.Subscript) and unparse(n.ast.targets[0].value) == "all_cmds":
+        if n.kind == "stmt" and isinstance(n.ast, ast.Assign) and isinstance(n.ast.targets[0], ast.Subscript) and isinstance(n.ast.targets[0].value, ast.Name):
             loop = next((a for a in ancestors(n.ast) if isinstance(a, ast.For)), None)
             if loop is not None and "_iter_binaries" in unparse(loop.iter):
-                guards = [unparse(t) for t, p in ucfg.guards(n) if "not in" in unparse(t) or " in all_cmds" in unparse(t)]
+                merged = n.ast.targets[0].value.id
+                guards = [unparse(t) for t, p in ucfg.guards(n) if "not in" in unparse(t) or f" in {merged}" in unparse(t)]
                 ow = not guards
     if ow is None:
         raise AnchorMissing(f"{CC}:update_cache: merge loop over _iter_binaries not found")
-    src_paths = any(d.kind == "assign" and isinstance(d.value, ast.Call) and call_name(d.value) == "get_paths" for d in udefs.get("paths", []))
+    PATHS = names_bound_to_call(uc, lambda nm_: nm_ == "get_paths", udefs)
+    merge_loops = [a for a in walk_local(uc) if isinstance(a, ast.For) and "_iter_binaries" in unparse(a.iter)]
+    src_paths = bool(PATHS) and all(isinstance(l.iter, ast.Call) and l.iter.args and unparse(l.iter.args[0]) in PATHS and all(len(udefs.get(p_, [])) == 1 for p_ in PATHS) for l in merge_loops)
     ctx.ob("R2", f"{CC}:CommandsCache.update_cache", "the merge iterates the directory list produced by get_paths()", src_paths, key="update_cache|paths-source")
     ctx.ob("R2", f"{EX}:get_paths / {CC}:update_cache", f"parity: get_paths reverses $PATH ({rev}) and the merge overwrites ({ow}) — front of $PATH wins", rev == ow, key="precedence-parity", detail=f"reversed={rev} overwrite={ow}")
     ib = cc.func("CommandsCache._iter_binaries")
-    ok = any(isinstance(n, ast.For) and unparse(n.iter) == "paths" for n in ast.walk(ib))
+    ok = any(isinstance(n, ast.For) and unparse(n.iter) == param_name(ib, 0) for n in ast.walk(ib))
     ctx.ob("R2", f"{CC}:CommandsCache._iter_binaries", "binaries are yielded in the order of the given directory list", ok, key="iter_binaries|order")
     lp = ex.func("locate_file_in_path_env")
-    ok = any(isinstance(n, ast.Call) and call_name(n) == "itertools.product" and [unparse(a) for a in n.args][:1] == ["paths"] for n in ast.walk(lp)) and not any(isinstance(n, ast.Call) and call_name(n) in ("reversed", "sorted") for n in ast.walk(lp))
+    LPATHS = names_defined_by(lp, lambda v: any(isinstance(x, ast.Call) and call_name(x) == "clear_paths" for x in ast.walk(v))) | names_defined_by(lp, lambda v: any(isinstance(x, ast.Call) and last_attr(x) == "get" and x.args and const_value(x.args[0]) == "PATH" for x in ast.walk(v)))
+    LPATHS |= {n_ for n_ in list(LPATHS) for n_ in copies_of(df.all_defs(lp), n_)}
+    LPATHS |= names_defined_by(lp, lambda v: bool(LPATHS & df.names_read(v)) and isinstance(v, ast.Call) and call_name(v) in ("tuple", "list", "clear_paths"))
+    ok = any(isinstance(n, ast.Call) and call_name(n) == "itertools.product" and [unparse(a) for a in n.args][:1] and unparse(n.args[0]) in LPATHS for n in ast.walk(lp)) and not any(isinstance(n, ast.Call) and call_name(n) in ("reversed", "sorted") for n in ast.walk(lp))
     ctx.ob("R2", f"{EX}:locate_file_in_path_env", "the direct search scans $PATH front to back (directory-major) and returns the first hit", ok, key="path-scan-order")
 
     # ------------------------------------------------------------------ R3
@@ -169,7 +178,7 @@ def check(ctx):
                 cmp_ok = True
     stored = any(isinstance(n, ast.Assign) and isinstance(n.targets[0], ast.Attribute) and pp in df.names_read(n.value) for n in walk_local(ch))
     ctx.ob("R4", f"{CC}:CommandsCache._update_and_check_changes", "a reordered or shortened $PATH (no directory modified) triggers a rebuild: the directory list is compared with the one the map was built from", cmp_ok and stored, key="rebuild|path-list", where=loc(ch))
-    ok = any(call_name(c) == "self._update_and_check_changes" and c.args and unparse(c.args[0]) == "paths" for c in calls_in(uc))
+    ok = any(call_name(c) == "self._update_and_check_changes" and c.args and unparse(c.args[0]) in PATHS for c in calls_in(uc))
     ctx.ob("R4", f"{CC}:CommandsCache.update_cache", "the rebuild is decided by the change detector on the current directory list", ok, key="update_cache|detector")
     ua = ms.get("_update_aliases_cache")
     ok = ua is not None and "self.aliases" in unparse(ua)
